@@ -146,7 +146,13 @@ def check(sc, excl=(), pinned=False) -> Obligation:
             for nm, v in list(env.symbols.items()):
                 SR.assume(z3.And(SR.T(v) > 0, SR.T(v) < 1000))
             ann = MM.build(m, V)
-            text = condense_to_mass_mods(ann.copy(), include_plus=sc["plus"], precision=prec)
+            pristine = MM.build(m, V)       # the same peptide, never handed to the library before the reference mass is taken
+            # the way a caller works: weigh the peptide object, condense the *same* object, weigh it again - weighing must not
+            # have changed what is condensed, nor condensing what is weighed
+            m_pre = mass(ann, monoisotopic=True)
+            text = condense_to_mass_mods(ann, include_plus=sc["plus"], precision=prec)
+            m_post = mass(ann, monoisotopic=True)
+            same_object = SR.close(m_post, m_pre, 1e-9)
             SR.assume_round_axiom()
             if not isinstance(text, str):
                 fn.why = "did not return a str"
@@ -203,14 +209,17 @@ def check(sc, excl=(), pinned=False) -> Obligation:
                 fn.why = f"charge left in {text!r}"
                 return False
             # mass preserved (neutral peptide: the condensed text carries no charge)
-            neutral = ann.copy()
+            neutral = pristine
             neutral.charge = None
             neutral.charge_adducts = None
             m0 = mass(neutral, monoisotopic=True)
             m1 = mass(back, monoisotopic=True)
             dropped = max(0, len(pos) - len(back.internal_mods or {}))
             tol = (10.0 ** (-prec)) * max(shifts, 1) + slack(sc, dropped)
-        return SR.close(m1, m0, tol)
+        return _both(same_object, SR.close(m1, m0, tol))
+
+    def _both(a, b):
+        return z3.And(a, b)
 
     fn.why = ""
 
@@ -236,10 +245,15 @@ def main(p):
     m = c18.to_mm(sc)
     V = lambda name: float(model.get(name, 1.25))
     ann = MM.build(m, V)
+    pristine = MM.build(m, V)
     src = ann.serialize()
-    text = condense_to_mass_mods(ann.copy(), include_plus=sc["plus"], precision=sc["prec"])
+    m_pre = pt.mass(ann)
+    text = condense_to_mass_mods(ann, include_plus=sc["plus"], precision=sc["prec"])
+    m_post = pt.mass(ann)
     back = pt.parse(text)
     problems = []
+    if abs(m_post - m_pre) > 1e-9 or ann.serialize() != src:
+        problems.append(f"the peptide object changed between mass(), condense_to_mass_mods() and mass() again: {src!r} -> {ann.serialize()!r} ({m_pre!r} -> {m_post!r})")
     if back.sequence != sc["seq"]:
         problems.append("residues changed")
     if not sc["feat"] and text != sc["seq"]:
@@ -269,7 +283,7 @@ def main(p):
         problems.append("non-shift annotation left")
     if where and c18.F_PER_RESIDUE not in excl:
         problems.append("shift written where the original is not modified: " + ", ".join(where))
-    neutral = ann.copy(); neutral.charge = None; neutral.charge_adducts = None
+    neutral = pristine; neutral.charge = None; neutral.charge_adducts = None
     m0, m1 = pt.mass(neutral), pt.mass(back)
     dropped = max(0, len(pos) - len(back.internal_mods or {}))
     tol = (10.0 ** (-sc["prec"])) * max(shifts, 1) + c18.slack(sc, dropped)
